@@ -144,3 +144,76 @@ func VerifC48_minerSettings() {
 	sym.Assert(vC48Same(vC48Take(persisted), want), "exactly the requested settings change, to the requested values")
 	sym.Assert(vC48Same(vC48Take(again), want), "the state cache shows the same settings as the persisted node")
 }
+
+// VerifC48_minerGlobals: one update_globals call by the owner or a stranger with 1..2 requested
+// chain-wide settings: a mutable integer setting with an arbitrary value, another mutable one,
+// an immutable setting, an unknown name, an unparsable value.
+func VerifC48_minerGlobals() {
+	sym.MapOrder(2)
+	msc := &MinerSmartContract{}
+	t := &transaction.Transaction{}
+	t.ClientID = []string{vC48Owner, vC48Stranger}[sym.Choice("caller", 0, 1)]
+	t.ToClientID = ADDRESS
+	t.Hash = vC48Hash
+	b := &block.Block{}
+	b.Round = 7
+	balances, trie := symstate.Balances(b, t)
+	gn := &GlobalNode{OwnerId: vC48Owner}
+	gs := newGlobalSettings()
+	gs.Fields["server_chain.block.max_block_size"] = "5"
+	gs.Fields["server_chain.block.replicators"] = "1"
+	gs.Version = sym.I64("version")
+	sym.Assume(gs.Version >= 0 && gs.Version < 1<<40)
+	if err := gs.save(balances); err != nil {
+		panic(err)
+	}
+	preVersion := gs.Version // (save increments)
+	n := sym.Choice("entries", 1, 2)
+	changes := config.NewStringMap()
+	want := map[string]string{"server_chain.block.max_block_size": "5", "server_chain.block.replicators": "1"}
+	anyBad := false
+	for i := 0; i < n; i++ {
+		var key, val string
+		bad := false
+		switch sym.Choice("entry", 0, 4) {
+		case 0:
+			key, val = "server_chain.block.max_block_size", strconv.Itoa(int(sym.I32("newMaxBlockSize")))
+		case 1:
+			key, val = "server_chain.block.replicators", strconv.Itoa(sym.Int("newReplicators"))
+		case 2:
+			key, val, bad = "server_chain.owner", "x", true // immutable
+		case 3:
+			key, val, bad = "no.such.global", "1", true
+		case 4:
+			key, val, bad = "server_chain.block.min_generators", "many", true
+		}
+		if _, dup := changes.Fields[key]; dup {
+			return
+		}
+		changes.Fields[key] = val
+		anyBad = anyBad || bad
+		if !bad {
+			want[key] = val
+		}
+	}
+	_, err := msc.updateGlobals(t, changes.Encode(), gn, balances)
+	stored := newGlobalSettings()
+	if gerr := trie.GetNodeValue(util.Path(symstate.PathOf(GLOBALS_KEY)), stored); gerr != nil {
+		sym.Fail("the global settings stay readable")
+		return
+	}
+	if err != nil {
+		sym.Cover("rejected")
+		sym.Assert(stored.Version == preVersion && stored.Fields["server_chain.block.max_block_size"] == "5" && stored.Fields["server_chain.block.replicators"] == "1" && len(stored.Fields) == 2,
+			"a rejected change leaves the stored chain-wide settings as they were")
+		return
+	}
+	sym.Cover("accepted")
+	sym.Assert(t.ClientID == vC48Owner, "chain-wide settings change only through a transaction from the configured owner")
+	sym.Assert(!anyBad, "a map with an immutable or unknown setting or an unparsable value is rejected as a whole")
+	sym.Assert(stored.Version == preVersion+1, "an accepted change advances the settings version by one")
+	for k, v := range want {
+		sym.Assert(stored.Fields[k] == v, "exactly the requested chain-wide settings change, to the requested values")
+	}
+	sym.Assert(len(stored.Fields) == len(want), "no other chain-wide setting appears")
+}
